@@ -164,7 +164,7 @@ def run(rep):
     rep.guarded("R-C07-gcd", C07.rule_gcd)
     rep.guarded("R-C07-exact", C07.rule_exact)
     rep.floor("R-C07-gcd", 3 * 3 + 2)
-    rep.floor("R-C07-exact", 4)
+    rep.floor("R-C07-exact", 3)
     rep.clause("R-C07-gcd / R-C07-exact", "fft_size_in : fft_size_out = rate_in : rate_out exactly (integer arithmetic, exact divisions), so an event at input frame n lands at n·ratio (shared with C07)")
     import shares
     shares.step(rep, ASYNC, "the model's start position assumes the position advances before it is used, by the step, once per frame")
